@@ -1,6 +1,6 @@
 SPECIFICATION Spec
 CONSTANTS Kinds = {"rm", "rcm"} MaxR = 2 MaxC = 1 MaxLate = 1 MaxClose = 1 GraceSet = {2} MaxT = 3
   RClasses = {"nil", "err", "canceled"} CClasses = {"nil", "err"}
-  AtomicAddCloser = FALSE GraceRecheck = TRUE Monitor = TRUE Defect = "none"
+  AtomicAddCloser = FALSE GraceRecheck = TRUE ReleaseBeforeStart = TRUE Monitor = TRUE Defect = "none"
 INVARIANTS NotBad
 CHECK_DEADLOCK FALSE
